@@ -160,15 +160,24 @@ def bigbatch_stream(ctx):
     are second moments over ALL rows, each row weighted equally"""
     from kfac.preconditioner import KFACPreconditioner
     rng = ctx.rng
-    for _ in range(ctx.budget(6, 40)):
+    for it_ in range(ctx.budget(8, 44)):
         B = rng.choice([257, 300, 513, 700, 1025])
         conv = rng.random() < 0.6
+        # kernel / stride of the convolution: 2x2 stride 1 on 3x3 inputs, or a pointwise (1x1) convolution with a stride
+        # (a down-sampling shortcut) on 4x5 inputs: only the visited pixels count, normalised by out_h*out_w
+        ks, st, hw = rng.choice([((2, 2), (1, 1), (3, 3)), ((2, 2), (1, 1), (3, 3)), ((1, 1), (2, 2), (4, 5)), ((1, 1), (2, 1), (4, 5)),
+                                 ((1, 1), (1, 3), (4, 5)), ((1, 1), (1, 1), (3, 3))])
+        if it_ == 0:
+            # more rows than any internal block size (2^16): tokens of a long-sequence batch
+            B, conv = rng.choice([65537, 70001, 131073]), False
+        elif it_ == 1:
+            B, conv, ks, st, hw = 16385, True, (2, 2), (1, 1), (3, 3)      # 16385 * 4 positions = 65540 rows
         torch.manual_seed(rng.randrange(10**6))
-        case = {'batch': B, 'layer': 'conv' if conv else 'linear'}
+        case = {'batch': B, 'layer': 'conv' if conv else 'linear', 'kernel': ks, 'stride': st, 'input_hw': hw}
         try:
             if conv:
-                m = torch.nn.Sequential(torch.nn.Conv2d(1, 2, 2, bias=True)).double()
-                x = torch.randn(B, 1, 3, 3, dtype=torch.float64) * (1 + torch.arange(B, dtype=torch.float64).view(-1, 1, 1, 1) / B)
+                m = torch.nn.Sequential(torch.nn.Conv2d(1, 2, ks, stride=st, bias=True)).double()
+                x = torch.randn(B, 1, *hw, dtype=torch.float64) * (1 + torch.arange(B, dtype=torch.float64).view(-1, 1, 1, 1) / B)
             else:
                 m = torch.nn.Sequential(torch.nn.Linear(3, 2)).double()
                 x = torch.randn(B, 3, dtype=torch.float64) * (1 + torch.arange(B, dtype=torch.float64).view(-1, 1) / B)
@@ -179,12 +188,14 @@ def bigbatch_stream(ctx):
             p.step()
             sd = p.state_dict()['layers']['0']
             if conv:
-                cols = torch.nn.functional.unfold(x, (2, 2)).transpose(1, 2).reshape(-1, 4)     # (B*4, 4)
-                a = torch.cat([cols, torch.ones(cols.shape[0], 1, dtype=torch.float64)], 1) / 4.0     # spatial normalisation
-                g = y.grad.permute(0, 2, 3, 1).reshape(-1, 2) / 4.0 * 1.0
-                g = y.grad.permute(0, 2, 3, 1).reshape(-1, 2)
-                wantA = 0.5 * torch.eye(5, dtype=torch.float64) + 0.5 * (a.t() @ a / a.shape[0])
-                eG = 0.0
+                kk = ks[0] * ks[1]
+                L = y.shape[2] * y.shape[3]
+                cols = torch.nn.functional.unfold(x, ks, stride=st).transpose(1, 2).reshape(-1, kk)     # (B*L, kk)
+                a = torch.cat([cols, torch.ones(cols.shape[0], 1, dtype=torch.float64)], 1) / float(L)     # spatial normalisation
+                wantA = 0.5 * torch.eye(kk + 1, dtype=torch.float64) + 0.5 * (a.t() @ a / a.shape[0])
+                g = y.grad.permute(0, 2, 3, 1).reshape(-1, 2) / float(L)
+                wantG = 0.5 * torch.eye(2, dtype=torch.float64) + 0.5 * (g.t() @ g / g.shape[0])
+                eG = kfacsim.relerr(sd['G'].double(), wantG)
             else:
                 a = torch.cat([x, torch.ones(B, 1, dtype=torch.float64)], 1)
                 g = y.grad
